@@ -1074,8 +1074,24 @@ static double cheapEstimatedCost(ConnRef *lineRef)
     return length - (route.size() + 1);
 }
 
+// Orders connectors by their ID, rather than by pointer value, so that
+// iteration order does not depend on where the connectors were allocated.
+struct CmpConnRefPtrById
+{
+    bool operator()(const ConnRef *lhs, const ConnRef *rhs) const
+    {
+        if (lhs->id() != rhs->id())
+        {
+            return lhs->id() < rhs->id();
+        }
+        // IDs are unique within a router, so this is only a last resort.
+        return lhs < rhs;
+    }
+};
+
 // A map of connectors to the set of connectors that cross them.
-typedef std::map<ConnRef *, std::set<ConnRef *> > CrossingConnectorsMap;
+typedef std::map<ConnRef *, std::set<ConnRef *>, CmpConnRefPtrById>
+        CrossingConnectorsMap;
 
 // A list of connector crossing maps that don't interact with each other.
 typedef std::list<CrossingConnectorsMap> CrossingConnectorsMapList;
